@@ -26,6 +26,24 @@ def work_dir(tag: str) -> str:
     return d
 
 
+def write_coqproject() -> bool:
+    """_CoqProject lists every .v file under the fixed sub-directories (so adding a file needs no edit).
+    Returns True when the list changed (the Makefile must then be regenerated)."""
+    files = []
+    for sub in ("Gen", "Model", "Proofs", "Check", "Props", "Refuted"):
+        d = os.path.join(COQ, sub)
+        if os.path.isdir(d):
+            files += sorted(f"{sub}/{fn}" for fn in os.listdir(d) if fn.endswith(".v") and not fn.startswith("."))
+    text = "-Q . MT\n" + "\n".join(files) + "\n"
+    path = os.path.join(COQ, "_CoqProject")
+    old = open(path).read() if os.path.exists(path) else ""
+    if old != text:
+        with open(path, "w") as f:
+            f.write(text)
+        return True
+    return False
+
+
 def sub_env(extra=None):
     env = dict(os.environ)
     env["PYTHONPATH"] = REPO + os.pathsep + VERIF
